@@ -34,7 +34,15 @@ META = {
             "rows when entered for another row (C01_rewrite_mixed_refuted), both replayed on the real pipeline. Correspondence: "
             "chains are run through the real _diff_and_patch / cmd_paths, Coq re-executes Device.exec on the REAL command "
             "paths, checks the runner's fed-back device state, the model's diff / patch / cmd_paths against the real ones, "
-            "and evaluates P_C01's clauses (reaches expected, second patch a no-op and empty, second diff empty) per step.",
+            "and evaluates P_C01's clauses (reaches expected, second patch a no-op and empty, second diff empty) per step. "
+            "Shipped rulebooks: coq/Gen/Src_rules.v holds the RAW rule lines of every annet/rulebook/texts/* file as the real "
+            "provider renders them for 16 canonical hardware strings; Coq parses them (Model/ShippedText.v: %params, `!`, "
+            "%context, %ordered/%rewrite/%multiline rewriting, odict semantics) and the parsed patching / ordering / deploying "
+            "rulebooks are compared by Coq with get_rulebook(hw) on every run. C01_shipped_order_sound: a structural condition "
+            "on (ordering rulebook, rule set) - no %order_reverse pattern matches a removal command of an undo_redo rule, at any "
+            "depth - implies, for ALL old/new of the Tier-A domain and the second-extension matcher, that the patch computed WITH "
+            "the %order_reverse rules converges (Proofs/ConvergeMainQ.v: the induction of ConvergeMain.v under an abstract "
+            "invariant); C01_shipped_order_ok evaluates the condition by vm_compute on every shipped pair.",
     "technique": "Coq induction on the size of the two config trees with a slot-by-slot analysis of one level (diff entries -> "
                  "make_pre grouping -> logic -> stable sort -> block stream -> path stack -> device); vm_compute evaluation "
                  "of Device.exec / expected / P_C01 on the real pipeline's outputs along chains",
@@ -43,7 +51,16 @@ META = {
             "%force_commit, unambiguous removal commands, at most one row per (rule,key). Not proved (statements kept in "
             "Properties/C01.v): %ordered rows with bodies / mixed with other rules / below a block (only the flat one-rule "
             "level is proved; the ordered reading P_C01o is evaluated on every real output), %rewrite blocks as a whole (C01_rewrite_block_statement; only the patch + device half is proved, P_C01 is not evaluated on real outputs for %rewrite rules - the model's diff / patch / cmd_paths are compared with the real ones), %multiline, second patch a no-op when a change was declined (checked on "
-            "every real output), order_ok on the shipped ordering rulebooks (no translator of shipped rule texts yet). "
+            "every real output). Shipped rulebooks: the convergence conclusion is proved for every shipped (ordering, patching) pair "
+            "except huawei's without any hypothesis (C01_shipped_converges); for huawei's pairs it rests on the unproved "
+            "hypothesis that the literal-word test lit_quiet is sound for the pattern model (C01_shipped_converges_partial; the "
+            "hypothesis is tested on the real regexps); the literal form 'no removal after a direct command of its slot' under "
+            "the structural condition is stated only (C01_shipped_undo_first_statement). On huawei / cisco / arista / aruba / pc "
+            "rulebooks the Tier-A domain is EMPTY for configurations with a known row, because their catch-all rules "
+            "`<negation> ~ %global` make every removal command a known row (C01_shipped_catchall_outside_domain): the shipped "
+            "theorems are non-vacuous only for rulebooks without such a catch-all (b4com, nexus, iosxr, routeros, ...). "
+            "Rules with a vendor %logic / %diff_logic, %multiline, %ignore_case or a pattern outside Model/PatternY.v are kept "
+            "as opaque rules outside the domain (counted in the evidence). "
             "P_C01 is evaluated on real outputs also for %force_commit rulebooks. Vendor-specific %logic functions are out "
             "of the property's quantifier. Theorems are about the Gallina models; models are tied to /repo by the "
             "correspondence run (generated rulebooks, 8 block vendors). The device itself (Model/Device.v) is a definition "
@@ -715,6 +732,12 @@ def run(ctx):
                      f"(flags {fl})", replay={"case": payload(w), "impl": outs[i], "expected": w["expect"]}, no_input=True))
     fill_coverage(ctx, cases, outs, res)
     ctx.coverage["witnesses_replayed"] = [w["name"] for w in wit]
+    # shipped rulebooks (Gen/Src_rules.v): Coq-parsed vs real compiled rulebook, the condition tables of
+    # C01_shipped_order_ok, the hypothesis of C01_shipped_converges_partial on the real regexps
+    from .. import shipped
+    sh = {"correspondence": shipped.correspondence(ctx, ID)}
+    sh["tables"] = shipped.tables_and_quiet(ctx, ID)
+    ctx.coverage["shipped_rules"] = sh
 
 
 def fill_coverage(ctx, cases, outs, res):
